@@ -19,17 +19,25 @@ def register(PROPS):
                  'and 10 Gregorian DTSTARTs 1940-2070 the events RRULE:FREQ=DAILY;SCALE=x;COUNT=200, FREQ=MONTHLY;SCALE=x;COUNT=150 and FREQ=YEARLY;SCALE=x;COUNT=70 are read back '
                  '(text -> parser -> stream, output in Gregorian; each needs several fills of the stream\'s 63-slot cache): the daily one must be 200 consecutive Gregorian days, the monthly (yearly) one '
                  'must keep the Hijri day of month (and month) of DTSTART and advance by exactly one Hijri month (year) -- further only over dates the scale does not have --, all strictly increasing, '
-                 'and a stream may end before COUNT only where the table of a table calendar ends.',
+                 'and a stream may end before COUNT only where the table of a table calendar ends.  '
+                 'The calendar-level output scale (mode calscale): for each of the 11 names as CALSCALE:x of the calendar and every fourth 1 January 1938-2074 the event '
+                 'DTSTART:<that day> RRULE:FREQ=DAILY;COUNT=1500 (once DATE valued, once at 12:00:00Z) is read through the parser; the stream delivers instants labelled with a Hijri scale, '
+                 'and the k-th must be exactly what echs_instant_rescale() gives for DTSTART + k days in the scale the instant is labelled with (every day of 1938-2077 passes through the stream\'s cache this way, '
+                 '29/30 of every month included).  '
+                 'The scales as the text interface reads them (mode text): for 9 scale names and every Gregorian day of 1901-2099 inside the calendar the day is converted with echs_instant_rescale(), '
+                 'written as DTSTART;VALUE=DATE;SCALE=x:yyyymmdd (and as DTSTART;SCALE=x:yyyymmddT120000Z) of a non-recurring event and read through the parser: every event must be there and its one occurrence '
+                 '(reported in Gregorian) must be the day it was made from.',
         'note': 'The Hijri side has no external reference: the property is internal consistency.  Whether the calendars agree with published tables is not judged '
                 '(a 28-day month in the Umm al-Qura table, Sha\'ban 1364, is counted under months_reported_not_29_or_30_days, not reported).  '
                 'The last month listed in a table (its length is unknown) is not judged in either direction.',
         'rule': 'a case is one (scale, year): mode g2h = every day of one Gregorian year, mode h2g = every date of one Hijri year, mode edge = '
-                'echs_scale_ndim on the 12 months of one Hijri year 1300-1560 of a table calendar, mode interleave = all 90 ordered scale pairs over one Gregorian year, mode stream = one (rule, DTSTART, scale name) event; evaluations count single dates/calls resp. occurrences read; '
+                'echs_scale_ndim on the 12 months of one Hijri year 1300-1560 of a table calendar, mode interleave = all 90 ordered scale pairs over one Gregorian year, mode stream = one (rule, DTSTART, scale name) event, mode calscale = one (CALSCALE name, DTSTART, DATE or DATE-TIME) event, mode text = one (scale name, Gregorian year, DATE or DATE-TIME) calendar with one event per day; evaluations count single dates/calls resp. occurrences read resp. events written; '
                 'cases are distinct by construction; non-trivial = at least one date of the year lies inside the calendar (g2h, h2g) resp. at least one '
-                'month of the year lies outside the table (edge) resp. the event delivered all COUNT occurrences (stream); the sanitizer passes repeat the same cases and are not counted again',
+                'month of the year lies outside the table (edge) resp. the event delivered all COUNT occurrences (stream, calscale) resp. at least one day was written and all came back as themselves (text); the sanitizer passes repeat the same cases and are not counted again',
         'bound': {
             'quick': 'complete: 10 scales x 72 683 Gregorian days (1901-2099) forward and back; 10 scales x every date of AH 1319-1522 back and forth; '
-                     'month-length calls for AH 1300-1560 on both table calendars; 330 recurring events (3 rules x 10 DTSTARTs x 11 scale names) read back through the stream; all of it again under ASan',
+                     'month-length calls for AH 1300-1560 on both table calendars; 330 recurring events (3 rules x 10 DTSTARTs x 11 scale names) read back through the stream; 770 daily events (11 CALSCALE names x 35 DTSTARTs x 2 value types) of 1500 days each delivered in the calendar\'s scale; '
+                     '9 scale names x every day of 1901-2099 x 2 value types written in Hijri digits and read back; all of it again under ASan',
             'thorough': 'same as quick (the domain is finite and already complete)',
         },
         'drivers': [
@@ -42,6 +50,10 @@ def register(PROPS):
             D('c15_scale', ['mode=h2g', 'nocount=1'], label='h2g-asan', variant='asan', shards=4),
             D('c15_scale', ['mode=stream'], label='stream', shards=4),
             D('c15_scale', ['mode=stream', 'nocount=1'], label='stream-asan', variant='asan', shards=4),
+            D('c15_scale', ['mode=calscale'], label='calscale', shards=16),
+            D('c15_scale', ['mode=calscale', 'nocount=1'], label='calscale-asan', variant='asan', shards=16),
+            D('c15_scale', ['mode=text'], label='text', shards=16),
+            D('c15_scale', ['mode=text', 'nocount=1'], label='text-asan', variant='asan', shards=16),
         ],
         'assumptions': [
             'Gregorian day numbers and weekdays come from harness/ref/civil_c15.h (days-from-civil), self-tested over 1600-2400 at start-up',
@@ -54,5 +66,11 @@ def register(PROPS):
             'mode stream: Hijri dates of the occurrences are obtained with echs_instant_rescale (judged by g2h/h2g); a MONTHLY/YEARLY event whose DTSTART falls on a Hijri day 30 is not judged '
             '(whether months without a 30th are skipped, as the Gregorian rules do, or get their last day, as the Hijri rules do, is rule expansion, not scale conversion); '
             'events whose DTSTART lies outside a table calendar are not judged',
+            'mode calscale: the scale an occurrence is judged in is the one it is labelled with, not the one the CALSCALE name says (the name reader takes HIJRI.IC / HIJRI.IIC for IA / IIA and may '
+            'read a name differently depending on the bytes behind it; counted under calscale_name_read_as_other_scale, not reported: reading names is not part of the conversion); '
+            'a stream that stops up to one cache fill (64 days) before the end of a table calendar is counted (calscale_ends_a_fill_before_table_end), not reported',
+            'mode text: the names written are HIJRI, HIJRI.UMMULQURA, HIJRI.DIYANET, HIJRI.IA, HIJRI.IIA, HIJRI.IIIA, HIJRI.IIIC, HIJRI.IVA, HIJRI.IVC with SCALE= as the last parameter, '
+            'directly in front of the value (HIJRI.IC and HIJRI.IIC cannot be spelled so that the name reader takes them for what they say, and a name followed by another parameter may be read as another variant; '
+            'both are left out); only days inside a table calendar\'s coverage are written',
         ],
     }
